@@ -135,6 +135,11 @@ func genDraft(t *rapid.T) txnDraft {
 					delta = 1 + rapid.Uint64Range(0, 3).Draw(t, "over")
 				}
 				tx.Out[0].Coins = ^uint64(0) - rest + delta // rest >= 11 > delta: no wrap here
+				if mut == "coin_overflow" && len(tx.Out) >= 3 && rapid.Bool().Draw(t, "early") {
+					// the sum passes 2^64 before the last output is added (and may come back to a small number)
+					tx.Out[0].Coins, tx.Out[1].Coins = 1<<63, 1<<63+uint64(rapid.IntRange(0, 1).Draw(t, "plus"))
+					ev.Get("C09").Count("coin_overflow_before_last_output")
+				}
 				resign = true
 			}
 		case "length":
